@@ -696,6 +696,15 @@ func Build(p Prog, seed int64, failSlot int, failWhen string, tmpdir string) (*B
 				names["Cc"] = true
 				b.HdrWant["Cc:list"] = "cc1@to.test,Carbon Copy <cc2@to.test>"
 			}
+		case "refs": // a thread: message ids of the earlier messages (far longer than a line)
+			var ids []string
+			for i := 0; i < 9; i++ {
+				ids = append(ids, fmt.Sprintf("<%d.thread-of-the-discussion.%04d@mail.example.test>", 20240517101112+i, rng.Intn(10000)))
+			}
+			m.SetGenHeader(mail.HeaderReferences, strings.Join(ids, " "))
+			m.SetGenHeader(mail.HeaderInReplyTo, ids[8])
+			names["References"], names["In-Reply-To"] = true, true
+			b.HdrWant["References"] = strings.Join(ids, " ")
 		case "genempty": // a generic header without any value
 			m.SetGenHeader(mail.Header("X-Verif-Empty"))
 		case "genmultiempty": // ... one of them empty, and not the last
